@@ -152,23 +152,27 @@ Definition const_is (s : Z) : bool :=
    The interior nodes e.next, e.next.next, ... are *Stack objects of their own; their identity is never a target
    in this universe, so [interior == target] is modelled as false; their Is method and Unwrap are the same code,
    which is the local [walk] over the rest of the chain. *)
+(* the walk of errors.is over the chain of a *ers.Stack whose remaining nodes have the err fields l;
+   f is errors.is on one element (the recursive call) *)
+Definition chain_is (f : err -> bool) : list err -> bool :=
+  fix walk (l : list err) : bool :=
+    match l with
+    | [] => (* e.err == nil: errors.Is(nil, target) = (target == nil); Unwrap: next == nil *) is_nil t
+    | x :: r =>
+        (if is_nil x || is_nil t then same x t else f x)             (* Is method: errors.Is(e.err, target) *)
+        || match r with
+           | [] => false                                               (* next is the sentinel: next.err == nil *)
+           | y :: _ => negb (is_nil y) && walk r                       (* err = e.next *)
+           end
+    end.
+
 Fixpoint is_ (e : err) : bool :=
   same e t ||
   match e with
   | Const s => const_is s
   | Wrap1 _ x => if is_nil x then false else is_ x
   | Multi _ es => existsb is_ es
-  | Stk _ es =>
-      (fix walk (l : list err) : bool :=
-         match l with
-         | [] => (* e.err == nil: errors.Is(nil, target) = (target == nil); Unwrap: next == nil *) is_nil t
-         | x :: r =>
-             (if is_nil x || is_nil t then same x t else is_ x)           (* Is method: errors.Is(e.err, target) *)
-             || match r with
-                | [] => false                                             (* next is the sentinel: next.err == nil *)
-                | y :: _ => negb (is_nil y) && walk r                     (* err = e.next *)
-                end
-         end) es
+  | Stk _ es => chain_is is_ es
   | _ => false
   end.
 End GoIs.
@@ -197,30 +201,36 @@ Definition assignable (e : err) : bool :=
    Unwrap() error: err = Unwrap(); nil -> false     Unwrap() []error: first child (nil skipped) for which as succeeds
    *ers.Stack: As(target) = errors.As(e.err, target) (false for nil e.err); Unwrap as for Is.
    The result is the value stored in *target. *)
+(* Unwrap() []error arm: the first child (nil skipped) for which as succeeds *)
+Definition first_as (f : err -> option err) : list err -> option err :=
+  fix first (l : list err) : option err :=
+    match l with
+    | [] => None
+    | x :: r => if is_nil x then first r
+                else match f x with Some v => Some v | None => first r end
+    end.
+
+(* the walk of errors.as over the chain of a *ers.Stack *)
+Definition chain_as (f : err -> option err) : list err -> option err :=
+  fix walk (l : list err) : option err :=
+    match l with
+    | [] => None                                                       (* As method: errors.As(nil, _) = false; Unwrap: nil *)
+    | x :: r =>
+        match (if is_nil x then None else f x) with                    (* As method: errors.As(e.err, target) *)
+        | Some v => Some v
+        | None => match r with
+                  | [] => None
+                  | y :: _ => if is_nil y then None else walk r        (* err = e.next *)
+                  end
+        end
+    end.
+
 Fixpoint as_ (e : err) : option err :=
   if assignable e then Some e else
   match e with
   | Wrap1 _ x => if is_nil x then None else as_ x
-  | Multi _ es =>
-      (fix first (l : list err) : option err :=
-         match l with
-         | [] => None
-         | x :: r => if is_nil x then first r
-                     else match as_ x with Some v => Some v | None => first r end
-         end) es
-  | Stk _ es =>
-      (fix walk (l : list err) : option err :=
-         match l with
-         | [] => None
-         | x :: r =>
-             match (if is_nil x then None else as_ x) with
-             | Some v => Some v
-             | None => match r with
-                       | [] => None
-                       | y :: _ => if is_nil y then None else walk r
-                       end
-             end
-         end) es
+  | Multi _ es => first_as as_ es
+  | Stk _ es => chain_as as_ es
   | _ => None
   end.
 End GoAs.
